@@ -55,7 +55,7 @@ def run(ck, ctx):
             return I.run_method(D.obj, acc, [], st=D.st.copy())
         st2 = D.st.copy()
         try:
-            v = I.load_attr(D.obj, acc, st2, None, None)
+            v = I.load_attr(D.obj, acc, st2, I._top_frame(D.ci.module), None)    # (descriptors run their __get__)
         except Exception:       # noqa: BLE001
             return None
         if v.op == "BoundMethod" and v.args[1].op in ("Func", "Closure"):
@@ -181,7 +181,7 @@ def run(ck, ctx):
             if J.find_method(D2.ci, acc) is not None:
                 return J.run_method(D2.obj, acc, [], st=st_)
             try:
-                v = J.load_attr(D2.obj, acc, st_, None, None)
+                v = J.load_attr(D2.obj, acc, st_, J._top_frame(D2.ci.module), None)
             except Exception:       # noqa: BLE001
                 return None
             if v.op == "BoundMethod" and v.args[1].op in ("Func", "Closure"):
